@@ -128,7 +128,8 @@ def run : List String → String
     | some n =>
       -- every frame is written with two Writes: the header, then the single segment
       let outs : List Capnp.Model.Transport.W := (if plan = "-" then [] else plan.toList).map (fun c =>
-        if c = 'p' then .part else if c = 'z' then .zero else .full)
+        -- ('c': the peer took a few bytes, then the send was cancelled and the write deadline fired: a short write)
+        if c = 'p' ∨ c = 'c' then .part else if c = 'z' then .zero else .full)
       let rec go (fuel : Nat) (s : Capnp.Model.Transport.TS) (outs : List Capnp.Model.Transport.W) (res : String) : Capnp.Model.Transport.TS × String :=
         match fuel with
         | 0 => (s, res)
